@@ -17,134 +17,171 @@ use crate::ref_isaac as ri;
 use rand_core::block::BlockRngCore;
 use rand_core::{RngCore, SeedableRng};
 
-pub mod gen32 {
-    use super::*;
-    use rand_isaac::isaac::IsaacCore;
+// The stub reads the REAL generator memory through a raw pointer stashed by the
+// harness (the core is borrowed mutably by `generate` at that moment; for the
+// model checker this is simply a read of the current memory state), so the
+// expected operand `mm[(x >> 2) % 256]` is literally the same array read the
+// code just performed - no shadow copy of the memory is needed. Stores are
+// checked on the fly as well (mm[i] = y right after it happened, randrsl of the
+// previous step at the next step's first call), and one symbolic index K,
+// chosen before the run, records y_K and b_K for the final comparison of
+// memory and results (for all K).
+macro_rules! isaac_generate {
+    ($m:ident, $Core:ty, $W:ident, $mix:path, $sh1:expr, $sh2:expr) => {
+        pub mod $m {
+            use super::*;
+            static mut N: usize = 0;
+            static mut OK: bool = true;
+            static mut A: $W = 0;
+            static mut B: $W = 0;
+            static mut C: $W = 0;
+            static mut T: $W = 0;
+            static mut X: $W = 0;
+            static mut Y: $W = 0;
+            static mut CORE: *const $Core = core::ptr::null();
+            static mut RES: *const <$Core as BlockRngCore>::Results = core::ptr::null();
+            static mut K: usize = 0;
+            static mut YK: $W = 0;
+            static mut BK: $W = 0;
+            // only the steps LO <= i < HI are checked in one harness
+            static mut LO: usize = 0;
+            static mut HI: usize = 256;
 
-    static mut N: usize = 0;
-    static mut OK: bool = true;
-    static mut A: u32 = 0;
-    static mut B: u32 = 0;
-    static mut C: u32 = 0;
-    static mut T: u32 = 0;
-    static mut X: u32 = 0;
-    static mut Y: u32 = 0;
-    static mut M: [u32; 256] = [0; 256];
-    static mut RES: [u32; 256] = [0; 256];
-    // only the steps LO <= i < HI are checked in one harness (bands keep the
-    // SAT instance small; the shadow state is tracked through all steps)
-    static mut LO: usize = 0;
-    static mut HI: usize = 256;
+            fn pair(a: $W, b: $W, e1: $W, e2: $W) -> bool {
+                (a == e1 && b == e2) || (a == e2 && b == e1)
+            }
+            #[allow(static_mut_refs)]
+            fn mm(k: usize) -> $W {
+                unsafe { (*CORE).verif_mem(k) }
+            }
+            #[allow(static_mut_refs)]
+            fn rsl(k: usize) -> $W {
+                unsafe { (&(*RES))[k % 256] }
+            }
 
-    fn pair(a: u32, b: u32, e1: u32, e2: u32) -> bool {
-        (a == e1 && b == e2) || (a == e2 && b == e1)
-    }
-
-    #[allow(static_mut_refs)]
-    fn add_cut(a: u32, b: u32) -> u32 {
-        unsafe {
-            let r: u32 = kani::any();
-            let n = N;
-            N += 1;
-            if n == 0 {
-                // cc = cc + 1
-                OK &= pair(a, b, C, 1);
-                C = r;
-            } else if n == 1 {
-                // bb = bb + cc
-                OK &= pair(a, b, B, C);
-                B = r;
-            } else if n < 2 + 4 * 256 {
-                let i = (n - 2) / 4;
-                let chk = i >= LO && i < HI;
-                match (n - 2) % 4 {
-                    0 => {
-                        // x = mm[i]; aa = mix(aa) + mm[(i+128) % 256]
-                        X = M[i];
-                        OK &= !chk || pair(a, b, ri::mix32(i, A), M[(i + 128) % 256]);
-                        A = r;
-                    }
-                    1 => {
-                        // aa + bb
-                        OK &= !chk || pair(a, b, A, B);
-                        T = r;
-                    }
-                    2 => {
-                        // mm[i] = y = (aa + bb) + mm[(x >> 2) % 256]
-                        OK &= !chk || pair(a, b, T, M[((X >> 2) % 256) as usize]);
-                        Y = r;
-                        M[i] = r;
-                    }
-                    _ => {
-                        // randrsl[i] = bb = x + mm[(y >> 10) % 256]
-                        OK &= !chk || pair(a, b, X, M[((Y >> 10) % 256) as usize]);
+            #[allow(static_mut_refs)]
+            fn add_cut(a: $W, b: $W) -> $W {
+                unsafe {
+                    let r: $W = kani::any();
+                    let n = N;
+                    N += 1;
+                    if n == 0 {
+                        // cc = cc + 1
+                        OK &= pair(a, b, C, 1);
+                        C = r;
+                    } else if n == 1 {
+                        // bb = bb + cc
+                        OK &= pair(a, b, B, C);
                         B = r;
-                        RES[i] = r;
+                    } else if n < 2 + 4 * 256 {
+                        let i = (n - 2) / 4;
+                        let chk = i >= LO && i < HI;
+                        match (n - 2) % 4 {
+                            0 => {
+                                // the previous step has stored its result: randrsl[i-1] = bb,
+                                // handed out in reverse order (results[255 - (i-1)])
+                                if i > 0 && chk {
+                                    OK &= rsl(256 - i) == B;
+                                }
+                                // x = mm[i]; aa = mix(aa) + mm[(i+128) % 256]
+                                X = mm(i);
+                                OK &= !chk || pair(a, b, $mix(i, A), mm((i + 128) % 256));
+                                A = r;
+                            }
+                            1 => {
+                                // aa + bb
+                                OK &= !chk || pair(a, b, A, B);
+                                T = r;
+                            }
+                            2 => {
+                                // y = (aa + bb) + mm[(x >> sh1) % 256]
+                                OK &= !chk || pair(a, b, T, mm((X >> $sh1) as usize % 256));
+                                Y = r;
+                                if i == K {
+                                    YK = r;
+                                }
+                            }
+                            _ => {
+                                // mm[i] = y has happened; bb = x + mm[(y >> sh2) % 256]
+                                OK &= !chk || (mm(i) == Y && pair(a, b, X, mm((Y >> $sh2) as usize % 256)));
+                                B = r;
+                                if i == K {
+                                    BK = r;
+                                }
+                            }
+                        }
+                    } else {
+                        OK = false;
                     }
+                    r
                 }
-            } else {
-                OK = false;
             }
-            r
-        }
-    }
 
-    /// One refill from every (mm, aa, bb, cc): Jenkins' isaac(), results
-    /// handed out in reverse index order (results[255 - i] = randrsl[i]).
-    #[allow(static_mut_refs)]
-    fn body(lo: usize, hi: usize) {
-        unsafe {
-            LO = lo;
-            HI = hi;
-        }
-        let mut core = IsaacCore::verif_zeroed();
-        let mut i = 0;
-        while i < 256 {
-            let v: u32 = kani::any();
-            core.verif_set_mem(i, v);
-            unsafe {
-                M[i] = v;
+            /// One refill from every (mm, aa, bb, cc): Jenkins' isaac()/isaac64(),
+            /// results handed out in reverse index order.
+            #[allow(static_mut_refs)]
+            fn body(lo: usize, hi: usize) {
+                let mut core = <$Core>::verif_zeroed();
+                let mut i = 0;
+                while i < 256 {
+                    core.verif_set_mem(i, kani::any());
+                    i += 1;
+                }
+                let (a0, b0, c0): ($W, $W, $W) = (kani::any(), kani::any(), kani::any());
+                core.verif_set_abc(a0, b0, c0);
+                let k: usize = kani::any();
+                kani::assume(k < 256);
+                let m0k = core.verif_mem(k);
+                let mut results = <$Core as BlockRngCore>::Results::default();
+                unsafe {
+                    LO = lo;
+                    HI = hi;
+                    A = a0;
+                    B = b0;
+                    C = c0;
+                    K = k;
+                    CORE = &core as *const $Core;
+                    RES = &results as *const _;
+                }
+                core.generate(&mut results);
+                unsafe {
+                    assert!(N == 2 + 4 * 256);
+                    assert!(OK);
+                    let (a, b, c) = core.verif_abc();
+                    assert!(a == A && b == B && c == C);
+                    // final memory and results at the arbitrary index K
+                    assert!(core.verif_mem(k) == YK);
+                    assert!(results[255 - k] == BK);
+                    // the last step's result (no later call checks it)
+                    assert!(results[0] == B);
+                }
+                kani::cover!(c0 == <$W>::MAX, "cc wraps");
+                kani::cover!(m0k == 77, "arbitrary memory reachable");
             }
-            i += 1;
-        }
-        let (a0, b0, c0): (u32, u32, u32) = (kani::any(), kani::any(), kani::any());
-        core.verif_set_abc(a0, b0, c0);
-        unsafe {
-            A = a0;
-            B = b0;
-            C = c0;
-        }
-        let mut results = <IsaacCore as BlockRngCore>::Results::default();
-        core.generate(&mut results);
-        unsafe {
-            assert!(N == 2 + 4 * 256);
-            assert!(OK);
-            let (a, b, c) = core.verif_abc();
-            assert!(a == A && b == B && c == C);
-            let k: usize = kani::any();
-            kani::assume(k < 256);
-            assert!(core.verif_mem(k) == M[k]);
-            assert!(results[255 - k] == RES[k]);
-        }
-        kani::cover!(a0 == 7 && c0 == u32::MAX, "cc wraps");
-    }
 
-    macro_rules! band {
-        ($name:ident, $lo:expr, $hi:expr) => {
-            #[kani::proof]
-            #[kani::unwind(258)]
-            #[kani::stub(u32::wrapping_add, add_cut)]
-            pub fn $name() {
-                body($lo, $hi)
+            macro_rules! band {
+                ($name:ident, $lo:expr, $hi:expr) => {
+                    #[kani::proof]
+                    #[kani::unwind(258)]
+                    #[kani::stub($W::wrapping_add, add_cut)]
+                    pub fn $name() {
+                        body($lo, $hi)
+                    }
+                };
             }
-        };
-    }
-    band!(generate_0, 0, 64);
-    band!(generate_1, 64, 128);
-    band!(generate_2, 128, 192);
-    band!(generate_3, 192, 256);
-    band!(generate, 0, 256);
+            band!(generate_0, 0, 64);
+            band!(generate_1, 64, 128);
+            band!(generate_2, 128, 192);
+            band!(generate_3, 192, 256);
+            band!(generate, 0, 256);
+            // quick-tier detector: the first 6 steps only (the step code is the
+            // same for all steps; a change in it shows here)
+            band!(generate_q, 0, 6);
+        }
+    };
 }
+isaac_generate!(gen32, rand_isaac::isaac::IsaacCore, u32, ri::mix32, 2, 10);
+isaac_generate!(gen64, rand_isaac::isaac64::Isaac64Core, u64, ri::mix64, 3, 11);
 
 // ============================================================ seeding routes
 // `init` is replaced by a recording stub here (its own behaviour vs randinit()
@@ -388,7 +425,9 @@ macro_rules! isaac_clone_eq {
             pub fn clone() {
                 let mut g = <$Rng>::verif_from_core(arbitrary_core());
                 let pos: usize = kani::any();
-                kani::assume(pos < 255);
+                // stay inside the block: the stubbed generate returns fresh
+                // words per call, so a refill would (rightly) differ
+                kani::assume(pos < 250);
                 g.verif_inner_mut().generate_and_set(pos);
                 if kani::any() {
                     let _ = g.next_u32();
@@ -409,129 +448,6 @@ macro_rules! isaac_clone_eq {
 }
 isaac_clone_eq!(cl32, rand_isaac::isaac::IsaacCore, rand_isaac::IsaacRng, u32, crate::c05_block::isaac::gen_stub);
 isaac_clone_eq!(cl64, rand_isaac::isaac64::Isaac64Core, rand_isaac::Isaac64Rng, u64, crate::c05_block::isaac64::gen_stub);
-
-// ============================================================ generate, ISAAC-64
-pub mod gen64 {
-    use super::*;
-    use rand_isaac::isaac64::Isaac64Core;
-
-    static mut N: usize = 0;
-    static mut OK: bool = true;
-    static mut A: u64 = 0;
-    static mut B: u64 = 0;
-    static mut C: u64 = 0;
-    static mut T: u64 = 0;
-    static mut X: u64 = 0;
-    static mut Y: u64 = 0;
-    static mut M: [u64; 256] = [0; 256];
-    static mut RES: [u64; 256] = [0; 256];
-    // only the steps LO <= i < HI are checked in one harness (bands keep the
-    // SAT instance small; the shadow state is tracked through all steps)
-    static mut LO: usize = 0;
-    static mut HI: usize = 256;
-
-    fn pair(a: u64, b: u64, e1: u64, e2: u64) -> bool {
-        (a == e1 && b == e2) || (a == e2 && b == e1)
-    }
-
-    #[allow(static_mut_refs)]
-    fn add_cut(a: u64, b: u64) -> u64 {
-        unsafe {
-            let r: u64 = kani::any();
-            let n = N;
-            N += 1;
-            if n == 0 {
-                OK &= pair(a, b, C, 1);
-                C = r;
-            } else if n == 1 {
-                OK &= pair(a, b, B, C);
-                B = r;
-            } else if n < 2 + 4 * 256 {
-                let i = (n - 2) / 4;
-                let chk = i >= LO && i < HI;
-                match (n - 2) % 4 {
-                    0 => {
-                        X = M[i];
-                        OK &= !chk || pair(a, b, ri::mix64(i, A), M[(i + 128) % 256]);
-                        A = r;
-                    }
-                    1 => {
-                        OK &= !chk || pair(a, b, A, B);
-                        T = r;
-                    }
-                    2 => {
-                        OK &= !chk || pair(a, b, T, M[((X >> 3) % 256) as usize]);
-                        Y = r;
-                        M[i] = r;
-                    }
-                    _ => {
-                        OK &= !chk || pair(a, b, X, M[((Y >> 11) % 256) as usize]);
-                        B = r;
-                        RES[i] = r;
-                    }
-                }
-            } else {
-                OK = false;
-            }
-            r
-        }
-    }
-
-    /// One refill of ISAAC-64 from every (mm, aa, bb, cc): Jenkins' isaac64().
-    #[allow(static_mut_refs)]
-    fn body(lo: usize, hi: usize) {
-        unsafe {
-            LO = lo;
-            HI = hi;
-        }
-        let mut core = Isaac64Core::verif_zeroed();
-        let mut i = 0;
-        while i < 256 {
-            let v: u64 = kani::any();
-            core.verif_set_mem(i, v);
-            unsafe {
-                M[i] = v;
-            }
-            i += 1;
-        }
-        let (a0, b0, c0): (u64, u64, u64) = (kani::any(), kani::any(), kani::any());
-        core.verif_set_abc(a0, b0, c0);
-        unsafe {
-            A = a0;
-            B = b0;
-            C = c0;
-        }
-        let mut results = <Isaac64Core as BlockRngCore>::Results::default();
-        core.generate(&mut results);
-        unsafe {
-            assert!(N == 2 + 4 * 256);
-            assert!(OK);
-            let (a, b, c) = core.verif_abc();
-            assert!(a == A && b == B && c == C);
-            let k: usize = kani::any();
-            kani::assume(k < 256);
-            assert!(core.verif_mem(k) == M[k]);
-            assert!(results[255 - k] == RES[k]);
-        }
-        kani::cover!(c0 == u64::MAX, "cc wraps");
-    }
-
-    macro_rules! band {
-        ($name:ident, $lo:expr, $hi:expr) => {
-            #[kani::proof]
-            #[kani::unwind(258)]
-            #[kani::stub(u64::wrapping_add, add_cut)]
-            pub fn $name() {
-                body($lo, $hi)
-            }
-        };
-    }
-    band!(generate_0, 0, 64);
-    band!(generate_1, 64, 128);
-    band!(generate_2, 128, 192);
-    band!(generate_3, 192, 256);
-    band!(generate, 0, 256);
-}
 
 // ============================================================ init vs randinit()
 // The same UF-cut on the 24 (ISAAC) / 24 (ISAAC-64: 16 adds + 8 subs)
